@@ -1,7 +1,7 @@
 """C05 — AABB tree answers overlap queries exactly, for every insertion history."""
 from . import scopes
 from ..core.report import DOMAIN_D
-from ..rules import aabbtree
+from ..rules import aabbtree, unpack
 
 
 def run(idx, rep, tier):
@@ -20,3 +20,4 @@ def run(idx, rep, tier):
     aabbtree.r_sentinel(idx, rep)
     aabbtree.r_bookkeep(idx, rep)
     aabbtree.r_unique(idx, rep)
+    unpack.r_unpack(idx, rep, floor=4)
